@@ -349,7 +349,7 @@ fn ver_of(v: u8) -> ProofVersion { if v == 1 { ProofVersion::Version1 } else { P
 fn b2s(b: Result<bool, String>) -> J { match b { Ok(x) => json!(x), Err(_) => json!("PANIC") } }
 
 /// One id-level case: prove, verify, revealed values, perturbations.
-fn stmt_case<T: Mk>(r: &mut Rng, csprng: &mut StdRng, global: &GlobalContext<ArCurve>, global2: &GlobalContext<ArCurve>,
+fn stmt_case<T: Mk>(r: &mut Rng, csprng: &mut StdRng, global: &GlobalContext<ArCurve>, global2: &[GlobalContext<ArCurve>; 2],
                     al: &[(u8, A)], ss: &[St], ver: u8, tie: bool) {
     let w: World<T> = build_world(global, al, csprng);
     let filler = Commitment(ArCurve::hash_to_group(b"filler").unwrap());
@@ -398,7 +398,8 @@ fn stmt_case<T: Mk>(r: &mut Rng, csprng: &mut StdRng, global: &GlobalContext<ArC
             push("challenge_truncated", guarded(|| full.verify(ver_of(ver), &c4, global, &coms, &proof)));
         }
         // --- global context (other generators and keys)
-        push("global_other", guarded(|| full.verify(ver_of(ver), &challenge, global2, &coms, &proof)));
+        push("global_genesis_string", guarded(|| full.verify(ver_of(ver), &challenge, &global2[0], &coms, &proof)));
+        push("global_generators", guarded(|| full.verify(ver_of(ver), &challenge, &global2[1], &coms, &proof)));
         // --- credential id
         let full_c = StatementWithContext { credential: ArCurve::hash_to_group(b"other credential").unwrap(), statement: full.statement.clone() };
         push("cred_id", guarded(|| full_c.verify(ver_of(ver), &challenge, global, &coms, &proof)));
@@ -569,7 +570,8 @@ fn stmt_mode(seed: u64, n: u64) {
     let mut r = Rng::new(seed);
     let mut csprng = StdRng::seed_from_u64(seed);
     let global = GlobalContext::<ArCurve>::generate(String::from("verif-c18"));
-    let global2 = GlobalContext::<ArCurve>::generate(String::from("verif-c18-other"));
+    let global2 = [GlobalContext::<ArCurve>::generate(String::from("verif-c18-other")),
+        GlobalContext::<ArCurve>::generate_from_seed(String::from("verif-c18"), 256, b"another seed for the generators")];
     // fixed corpus: the Coq witnesses and the classic boundary cases
     let corpus: Vec<(bool, Vec<(u8, A)>, Vec<St>)> = vec![
         (true, vec![(0, A::N(5))], vec![St::NotIn(0, vec![])]),
